@@ -92,11 +92,11 @@ SAVE_SPEC = """    requires laws(), wf(*old(self), *old(fs)),
             &&& final(fs).manifest_writes == old(fs).manifest_writes + 1
             &&& gc_post(VpFs { manifest: final(fs).manifest, manifest_writes: final(fs).manifest_writes, ..*old(fs) }, *final(fs), sv(*final(self)).saved.files)
         },
-        // a failed serialization / write leaves flag and disk files as they were
-        (!save_skips(sv(*old(self))) && final(fs).io_failures != old(fs).io_failures) ==> sv(*final(self)).current == sv(*old(self)).current && fs_same_files(*final(fs), *old(fs)),
-        // the representation invariant survives, except in the class reported as finding F-C29-save-failed-write:
-        // the write (or the serialization) failed while on_disk_current was true
-        wf(*final(self), *final(fs)) || (!save_skips(sv(*old(self))) && sv(*old(self)).current && final(fs).io_failures != old(fs).io_failures),
+        // a failed serialization / write leaves the disk files as they were and the store NOT marked current
+        // (regression F-C29-save-failed-write, fixed in /repo by dc216b9: the flag used to keep its old value here)
+        (!save_skips(sv(*old(self))) && final(fs).io_failures != old(fs).io_failures) ==> !sv(*final(self)).current && fs_same_files(*final(fs), *old(fs)),
+        // the representation invariant survives on EVERY exit (no exception class)
+        wf(*final(self), *final(fs)),
 """
 
 
@@ -113,6 +113,17 @@ def only_jobs(jobs):
 
 
 def build(ctx, res):
+    """the two back ends are built independently: a lost anchor (ExtractError) in one job makes that job undecided and keeps the other's verdict"""
+    jobs = []
+    for mk in (verus_job, kani_job):
+        try:
+            jobs.append(mk(ctx, res))
+        except ExtractError as e:
+            res.undecided.append("extraction (%s): %s" % (mk.__name__, e))
+    return only_jobs(jobs)
+
+
+def verus_job(ctx, res):
     s = ctx.src(L)
     vf = VerusFile(HEADER)
     items = []
@@ -372,19 +383,19 @@ def build(ctx, res):
                 "blob_decode(d) == Some(p) iff d == MAGIC++le32(SCHEMA)++p (lemma_blob_roundtrip, lemma_blob_decode_only_encoded)",
         "Store::save": "requires wf; ensures next empty, schema/key kept; if on_disk_current && next == saved.files: manifest, flag and disk untouched (write skipped); else saved.files == old next and "
                 "either (flag true, disk manifest parses to the saved manifest, gc_post) or (flag unchanged, disk unchanged: serializer / write failed); "
-                "wf holds afterwards EXCEPT when the write failed while the flag was true (finding F-C29-save-failed-write, lemma_finding_save_failed_write)",
+                "either (flag true, ...) or (serializer / write failed: flag FALSE, disk unchanged); wf holds afterwards on every exit "
+                "(regression of F-C29-save-failed-write: lemma_regression_save_failed_write shows the pre-fix behaviour, flag kept, breaks wf)",
         "Store::gc": "ensures manifest file untouched, blob files only removed (never changed/created), every blob referenced (fragment or diagnostics) by the saved manifest is still there. "
                 "The set of referenced paths (iterator chain) is outlined and ASSUMED (vp_referenced); verified: the walk removes nothing in that set",
         "client": "vp_scenario_roundtrip: open; put; save; reopen; entry; load composes to `what was put is what comes back` when wf survived the save and the reads succeed",
     })
     res.samples.append({"obligation": "verus:store:Store::save", "contract": SAVE_SPEC.strip()[:1500]})
-    expect = ["Store::open_with_lock", "Store::open", "Store::try_open", "lemma_reopen_same_key", "lemma_reopen_other_key", "lemma_finding_save_failed_write",
+    expect = ["Store::open_with_lock", "Store::open", "Store::try_open", "lemma_reopen_same_key", "lemma_reopen_other_key", "lemma_regression_save_failed_write",
               "vp_scenario_roundtrip", "Store::entry", "Store::read_blob", "Store::write_blob", "Store::load", "Store::load_diagnostics",
               "Store::save", "Store::gc", "Store::put", "Store::set_diagnostics", "Store::keep", "Store::invalidate", "Store::set_dependents", "Store::set_tests",
               "lemma_le32_roundtrip", "lemma_from_le32_inj", "lemma_blob_roundtrip", "lemma_blob_decode_only_encoded",
               "lemma_blob_decode_steps", "lemma_fv_insert", "lemma_fv_contains", "vp_is_none_or"]
-    jobs = [VerusJob("store", text, vf, expect, canaries=CANARIES, items=items, trusted=TRUSTED, rlimit=60), kani_job(ctx, res)]
-    return only_jobs(jobs)
+    return VerusJob("store", text, vf, expect, canaries=CANARIES, items=items, trusted=TRUSTED, rlimit=60)
 
 
 KANI_USE = """    use std::collections::{BTreeMap, HashSet};
@@ -479,19 +490,10 @@ NATIVE_DEPS = {"blake3": '"1.5"', "log": '"0.4"', "serde": '{ version = "1.0", f
                "fs4": '{ version = "1.1.0", features = ["sync"] }', "tempfile": '"3.20"'}
 
 
-def finding_witness(ctx, res=None):
-    """F-C29-save-failed-write replayed on the real text (not called by the framework; the lead may wire it to known_findings).
-    -> (line, reproduced)"""
-    from vp.core import native_search
-    r = native_search(ctx, "store", "store_finding", native_body(ctx) + ctx.unit_file("store", "finding_witness.rs"), args=[ctx.seed], timeout=900, deps=NATIVE_DEPS)
-    ok = bool(r.get("found_input"))
-    return ("obligation=verus:store:Store::save input-class=manifest-write-fails-while-on_disk_current "
-            "open(key); put(a,h2,..); save() with atomic_write failing; keep(a); save() [skipped]; reopen -> entry(a).hash is the OLD h1", ok)
-
-
 def replay(ctx, res, failure):
     """seeded native run of the REAL text of crates/cache/src/lib.rs (whole file minus its test module) on a temp directory against an
     executable form of the view contracts (units/store/replay.rs). veryl_path::atomic_write is taken from crates/path if the tree has it."""
     from vp.core import native_search
-    body = native_body(ctx) + ctx.unit_file("store", "replay.rs")
+    # finding_witness.rs = the deterministic failed-write regression (F-C29-save-failed-write), run first by replay.rs::main
+    body = native_body(ctx) + ctx.unit_file("store", "finding_witness.rs") + ctx.unit_file("store", "replay.rs")
     return native_search(ctx, "store", "store", body, args=[ctx.seed], timeout=1500, deps=NATIVE_DEPS)
